@@ -34,6 +34,11 @@ loops: 1
 funcs: spiftool_safe_strncpy
 */
 #define VERIF_OWN_STRLEN
+#ifdef U_TERM
+# define VERIF_STRLEN_N vg_n2       /* declared exact length of the text in dest */
+#else
+# define VERIF_STRLEN_N 0xffffffffffffffffUL /* no NUL inside dest[0..size): "length" beyond every maxlen */
+#endif
 #define VERIF_STRHELP_NOCALL_MSGS      /* see env_strhelp.h: goto-instrument crash work-around */
 #include "vprelude.h"
 #include "env_strhelp.h"
@@ -45,29 +50,25 @@ long w_size; unsigned long w_n1, w_n2;
 #ifdef U_TERM
 /* L = vg_n2 = exact length of the text in dest (ghost-instantiated at vg_j2), n = vg_n1 = exact length
  * of src (instantiated at vg_j); room = size - 1 - L; A = min(n, room) characters are appended. */
-/* The clauses are stated with L = vg_len_ret, the value the strnlen model returned, plus the lemma
- * "VLEN_GUARD(vg_n2) implies vg_len_ret == vg_n2" (first ensures): together they are the statement for
- * the true length vg_n2 (proving them jointly in the vg_n2 form takes minisat 3 minutes, this form 20 s). */
-#define VL   vg_len_ret
-#define ROOM ((size_t) size - 1 - VL)
+#define ROOM ((size_t) size - 1 - vg_n2)
 #define NAPP VMIN(vg_n1, ROOM)
 spif_bool_t spiftool_safe_strncat(spif_charptr_t dest, const spif_charptr_t src, spif_int32_t size)
 __CPROVER_requires(size > 0 && __CPROVER_is_fresh(dest, (size_t) size))
 __CPROVER_requires(vg_n2 < (size_t) size && dest[vg_n2] == 0 && (!(vg_j2 < vg_n2) || dest[vg_j2] != 0))
 __CPROVER_requires(VCSTR_EXACT_AT(src, vg_n1, vg_j))
 __CPROVER_assigns(__CPROVER_object_whole(dest), vg_exit, vg_len_ret)
-__CPROVER_ensures(!VLEN_GUARD(vg_n2) || VL == vg_n2)
-__CPROVER_ensures(VL <= (size_t) size)
+/* the strnlen model returned the true length (see env_strhelp.h, VERIF_STRLEN_N) */
+__CPROVER_ensures(vg_len_ret == vg_n2)
 #ifdef U_PART_TERM
 /* terminated at L + A */
-__CPROVER_ensures(!(VL < (size_t) size) || vg_exit != vg_j || dest[VL + NAPP] == 0)
+__CPROVER_ensures(vg_exit != vg_j || dest[vg_n2 + NAPP] == 0)
 /* TRUE iff nothing cut */
-__CPROVER_ensures(!(VL < (size_t) size) || vg_exit != vg_j || (__CPROVER_return_value == TRUE) == (vg_n1 <= ROOM))
+__CPROVER_ensures(vg_exit != vg_j || (__CPROVER_return_value == TRUE) == (vg_n1 <= ROOM))
 #endif
 #ifdef U_PART_TEXT
 /* old text kept (vg_k2 < L), appended text = prefix of src (vg_k < A) */
-__CPROVER_ensures(!(vg_k2 < VL) || dest[vg_k2] == __CPROVER_old(dest[vg_k2]))
-__CPROVER_ensures(!(VL < (size_t) size) || vg_exit != vg_j || !(vg_k < NAPP) || dest[VL + vg_k] == src[vg_k])
+__CPROVER_ensures(!(vg_k2 < vg_n2) || dest[vg_k2] == __CPROVER_old(dest[vg_k2]))
+__CPROVER_ensures(vg_exit != vg_j || !(vg_k < NAPP) || dest[vg_n2 + vg_k] == src[vg_k])
 #endif
 __CPROVER_ensures(__CPROVER_return_value == TRUE || __CPROVER_return_value == FALSE)
 ;
@@ -93,9 +94,9 @@ __CPROVER_requires(size > 0 && __CPROVER_is_fresh(dest, (size_t) size))
 __CPROVER_requires(!(vg_j2 < (size_t) size) || dest[vg_j2] != 0)
 __CPROVER_requires(VCSTR_EXACT_AT(src, vg_n1, vg_j))
 __CPROVER_assigns(__CPROVER_object_whole(dest), vg_exit, vg_len_ret)
-/* guard: the strnlen model returned the true value (size) */
-__CPROVER_ensures(vg_j2 != VMIN(vg_len_ret, (size_t) size - 1) || __CPROVER_return_value == FALSE)
-__CPROVER_ensures(vg_j2 != VMIN(vg_len_ret, (size_t) size - 1) || dest[size - 1] == 0)
+__CPROVER_ensures(vg_len_ret == (size_t) size)      /* the strnlen model returned the true value */
+__CPROVER_ensures(__CPROVER_return_value == FALSE)
+__CPROVER_ensures(dest[size - 1] == 0)
 ;
 void harness(void)
 {
